@@ -361,11 +361,12 @@ class Run:
         if self.level_override:
             level = self.level_override
         seen_k = {}
+        kkey = lambda k_: (k_.get("obligation"), k_.get("bounded"))  # hits found in forked sections come back as copies
         for k, nm in self.known_hits:
-            seen_k.setdefault(id(k), (k, []))[1].append(nm)
+            seen_k.setdefault(kkey(k), (k, []))[1].append(nm)
         for k, nms in seen_k.values():
             print(f"KNOWN-FINDING: property={self.pid} {k.get('what', nms[0])} [{len(nms)} obligation(s), e.g. {nms[0]}]")
-        stale = [k for k in self.known if not any(k is kk for kk, _ in self.known_hits)]
+        stale = [k for k in self.known if kkey(k) not in seen_k]
         for k in stale:
             self.note(f"known finding not observed in this run (stale or not exercised in this tier): {k.get('obligation')}")
         trusted = sorted(self.assumptions)
